@@ -179,6 +179,7 @@ func (ex *Exec) lock(st *State, fr *Frame, instr ssa.Instruction, p Val) {
 		ex.notes["DOUBLE-LOCK "+fr.key+" "+key] = true
 	}
 	st.note("Lock " + key)
+	st.bump("lock") // ghost counter: mutex acquisitions (a function that must not wait for a lock keeps it unchanged)
 	ls := ex.specs.Locks[key]
 	ex.havocClosed(st)
 	ex.observeCtx(st)
